@@ -19,6 +19,11 @@ import (
 	"strings"
 	"testing"
 
+	"github.com/BurntSushi/toml"
+	"github.com/oschwald/geoip2-golang"
+	"github.com/refraction-networking/conjure/pkg/station/geoip"
+	pb "github.com/refraction-networking/conjure/proto"
+	"google.golang.org/protobuf/proto"
 	"pgregory.net/rapid"
 	"verif/harness/vh"
 )
@@ -294,6 +299,91 @@ func c19PolicyMatches(x *c19Ctx, o c19Obs, pol *c19Policy, ips []net.IP, hosts [
 	return "", ""
 }
 
+// ---- the GeoIP part -------------------------------------------------------------------------------
+
+// c19GeoPaths returns the two database paths of a configuration ("" = unset or empty).
+func c19GeoPaths(c c19Conf) (cc, asn string) {
+	get := func(key string) string {
+		kv := c.scalar(key)
+		if kv == nil || kv.Mode == "unset" || kv.Raw == "" {
+			return ""
+		}
+		var v struct{ V string }
+		if _, err := toml.Decode("V = "+kv.Raw, &v); err != nil {
+			return ""
+		}
+		return v.V
+	}
+	return get("geoip_cc_db_path"), get("geoip_asn_db_path")
+}
+
+// c19GeoLoads is the reference for "the GeoIP part of this configuration loads without error": every
+// database that is named can be opened by the MaxMind library (a database that is not named only
+// disables its lookups - the station documents that as a warning, not a failure).
+func c19GeoLoads(c c19Conf) bool {
+	cc, asn := c19GeoPaths(c)
+	for _, p := range []string{cc, asn} {
+		if p == "" {
+			continue
+		}
+		var err error
+		var r *geoip2.Reader
+		if pn := c19Recover(func() { r, err = geoip2.Open(p) }); pn != nil || err != nil {
+			return false
+		}
+		r.Close()
+	}
+	return true
+}
+
+func c19SameGeo(a, b geoip.Database) (same bool) {
+	if p := c19Recover(func() { same = a == b }); p != nil {
+		return false
+	}
+	return same
+}
+
+// useGeoIP uses the GeoIP part the way the running station does: lookups through the manager (what
+// the connection handler and the DTLS log callbacks do) and a registration built and ingested
+// through the real path (NewRegistrationC2SWrapper looks the registrar address up).
+func (st *c19Station) useGeoIP(where string, n int, res *c19Result) {
+	ip := net.ParseIP("198.51.100.7").To4()
+	if p := c19Recover(func() {
+		cc, err := st.rm.GeoIP.CC(ip)
+		if err == nil && cc != "unk" {
+			_, _ = st.rm.GeoIP.ASN(ip)
+		}
+	}); p != nil {
+		res.report("panic:after-reload:geoip", fmt.Sprintf("%s: a GeoIP lookup through the registration manager panicked (GeoIP in force: %T %v): %s [%s]", where, st.rm.GeoIP, st.rm.GeoIP, p.Val, c19ShortStack(p)))
+		return // known finding: the registration path dies of the same cause
+	}
+	stub := &vTester{}
+	st.rm.LivenessTester = stub
+	defer func() { st.rm.LivenessTester = st.realLive }()
+	w := vWrapper(vSecret(300+n), pb.TransportType_Min, 0, "192.0.2.200:443", true, false, 4, 957, pb.RegistrationSource_API, ip)
+	b, err := proto.Marshal(w)
+	if err != nil {
+		res.harness = err.Error()
+		return
+	}
+	if p := c19Recover(func() {
+		if reg, err := st.rm.NewRegistrationC2SWrapper(w, false); err == nil && reg != nil {
+			res.class("geoip-used-by-registration")
+		}
+		regs, err := st.rm.parseRegMessage(b)
+		if err != nil {
+			return
+		}
+		for _, reg := range regs {
+			if reg != nil {
+				st.rm.ingestRegistration(reg)
+			}
+		}
+	}); p != nil {
+		res.report("panic:after-reload:registration", fmt.Sprintf("%s: building / ingesting a well-formed registration panicked: %s [%s]", where, p.Val, c19ShortStack(p)))
+	}
+}
+
 // ---- the run --------------------------------------------------------------------------------------
 
 func c19PutConfig(x *c19Ctx, fault string, c c19Conf) error {
@@ -411,6 +501,10 @@ func c19RunReload(x *c19Ctx, c c19ReloadCase, res *c19Result) {
 		return
 	}
 	st.housekeeping("start-up", res.report)
+	st.useGeoIP("start-up", 0, res)
+	if res.harness != "" {
+		return
+	}
 
 	// ---- reloads
 	diskConf := &initS   // nil: nothing loadable at the path
@@ -451,6 +545,8 @@ func c19RunReload(x *c19Ctx, c c19ReloadCase, res *c19Result) {
 			diskSub = -1
 			res.class("subnets-malformed")
 		}
+
+		prevGeo := st.rm.GeoIP
 
 		// what main.go does on SIGHUP
 		newConf, rerr, rp := c19Load()
@@ -551,6 +647,40 @@ func c19RunReload(x *c19Ctx, c c19ReloadCase, res *c19Result) {
 		if ok, why := c19SelectorIs(after, curSub); !ok {
 			res.report("reload:selector-mixed", fmt.Sprintf("%s: the selector answers from no single version: %s", where, why))
 		}
+		// the GeoIP part: used after every step; unchanged when it (or the whole file) failed to load
+		st.useGeoIP(where, i+1, res)
+		if res.harness != "" {
+			return
+		}
+		if !(rerr == nil && mustReject) {
+			geoLoaded := rerr == nil && diskConf != nil && c19GeoLoads(*diskConf)
+			if !geoLoaded {
+				if rerr == nil {
+					res.class("step:geoip-failed")
+					if hadSuccess {
+						res.class("fail-after-success")
+					}
+				}
+				if !c19SameGeo(st.rm.GeoIP, prevGeo) {
+					res.report("reload:geoip-changed-after-failed-load", fmt.Sprintf("%s: the GeoIP part failed to load but the database in force changed: before %T %v, after %T %v", where, prevGeo, prevGeo, st.rm.GeoIP, st.rm.GeoIP))
+				}
+			} else {
+				res.class("step:geoip-replaced")
+				cc, asn := c19GeoPaths(*diskConf)
+				if cc == "" && asn == "" && st.rm.GeoIP != nil {
+					// the new version names no database: lookups answer empty
+					var gcc string
+					var gasn uint
+					var e1, e2 error
+					if p := c19Recover(func() {
+						gcc, e1 = st.rm.GeoIP.CC(net.ParseIP("198.51.100.7"))
+						gasn, e2 = st.rm.GeoIP.ASN(net.ParseIP("198.51.100.7"))
+					}); p == nil && (gcc != "" || gasn != 0 || e1 != nil || e2 != nil) {
+						res.report("reload:geoip-not-new", fmt.Sprintf("%s: the reloaded configuration names no GeoIP database but lookups answer (%q, %v) (%d, %v)", where, gcc, e1, gasn, e2))
+					}
+				}
+			}
+		}
 		st.housekeeping(where, res.report)
 		if p := c19Recover(func() { st.rm.RemoveOldRegistrations() }); p != nil {
 			res.report("panic:remove-old", fmt.Sprintf("%s: RemoveOldRegistrations panicked: %s", where, p.Val))
@@ -603,9 +733,11 @@ func c19CheckReload(t vh.Fataler, rec *vh.Rec, x *c19Ctx, c c19ReloadCase) {
 
 func c19GenStep(rt *rapid.T) c19Step {
 	var s c19Step
-	switch rapid.SampledFrom([]string{"clean", "clean", "clean", "dirty", "dirty", "missing", "dir", "keep", "empty"}).Draw(rt, "confkind") {
+	switch rapid.SampledFrom([]string{"clean", "clean", "clean", "geobad", "geobad", "dirty", "dirty", "missing", "dir", "keep", "empty"}).Draw(rt, "confkind") {
 	case "clean":
 		s.Conf = c19GenConf(rt, false, false, false)
+	case "geobad":
+		s.Conf = c19GenGeoBad(rt)
 	case "dirty":
 		s.Conf = c19GenConf(rt, rapid.Bool().Draw(rt, "sd"), true, false)
 	case "missing":
@@ -660,10 +792,10 @@ func c19GenStartable(rt *rapid.T) c19Conf {
 
 // TestVerif_C19_reload: rapid-generated reload sequences.
 func TestVerif_C19_reload(t *testing.T) {
-	rec := vh.NewRec("C19", "reload", "rapid-generated sequences of 1-8 SIGHUP reloads after a start-up with a valid generated (or the shipped) configuration and subnet version: each step puts {a clean generated configuration, a dirty one (unparseable / stray-whitespace entries, bad regexps, wrong TOML types, syntax garbage), an empty file, nothing (file removed), a directory, the file left as it is} at the configuration path and {one of 4 pairwise disjoint subnet versions, a TOML syntax error, wrong types, a non-numeric generation key, nothing, a directory, unchanged} at the subnet path, then runs ParseConfig and, on success, OnReload as main.go does. Non-trivial = a reload in which a part failed to load after a reload in which every part loaded; distinct by sequence")
+	rec := vh.NewRec("C19", "reload", "rapid-generated sequences of 1-8 SIGHUP reloads after a start-up with a valid generated (or the shipped) configuration and subnet version: each step puts {a clean generated configuration, a dirty one (unparseable / stray-whitespace entries, bad regexps, wrong TOML types, syntax garbage), an empty file, nothing (file removed), a directory, the file left as it is} at the configuration path and {one of 4 pairwise disjoint subnet versions, a TOML syntax error, wrong types, a non-numeric generation key, nothing, a directory, unchanged} at the subnet path, then runs ParseConfig and, on success, OnReload as main.go does; clean configurations whose GeoIP database cannot be opened are a step kind of their own; after every step the GeoIP part is used (lookups, a registration through the real ingest path) and must be unchanged if it failed to load. Non-trivial = a reload in which a part failed to load after a reload in which every part loaded; distinct by sequence")
 	defer rec.Flush()
 	rec.Require("fail-after-success", "step:config-rejected", "step:config-accepted", "step:subnets-failed", "step:subnets-replaced",
-		"config-unreadable", "config-malformed", "subnets-unreadable", "subnets-malformed")
+		"config-unreadable", "config-malformed", "subnets-unreadable", "subnets-malformed", "step:geoip-failed", "step:geoip-replaced", "geoip-used-by-registration")
 	x := c19NewCtx(t)
 	if p := vh.ReplayFile(); p != "" {
 		var c c19ReloadCase
@@ -681,9 +813,9 @@ func TestVerif_C19_reload(t *testing.T) {
 
 // TestVerif_C19_reload2: every sequence of up to two reloads over a fixed alphabet of step kinds.
 func TestVerif_C19_reload2(t *testing.T) {
-	rec := vh.NewRec("C19", "reload2", "exhaustive: all sequences of 1 and 2 reloads over the alphabet {configuration: valid A, valid B (allowlist), unparseable CIDR entry, stray-whitespace entry, bad regexp, wrong TOML type, syntax error, empty file, removed, directory} x {subnets: version 1, version 2, syntax error, non-numeric generation key, removed, directory}, after a start-up with valid configuration A0 and subnet version 0; non-trivial = a failing reload after a successful one; distinct by sequence")
+	rec := vh.NewRec("C19", "reload2", "exhaustive: all sequences of 1 and 2 reloads over the alphabet {configuration: valid A, valid B (allowlist), unparseable CIDR entry, stray-whitespace entry, bad regexp, wrong TOML type, syntax error, empty file, removed, directory, valid policies + GeoIP database {missing, a directory, truncated}} x {subnets: version 1, version 2, syntax error, non-numeric generation key, removed, directory}, after a start-up with valid configuration A0 and subnet version 0; non-trivial = a failing reload after a successful one; distinct by sequence")
 	defer rec.Flush()
-	rec.Require("fail-after-success", "step:config-rejected", "step:config-accepted", "step:subnets-failed", "step:subnets-replaced")
+	rec.Require("fail-after-success", "step:config-rejected", "step:config-accepted", "step:subnets-failed", "step:subnets-replaced", "step:geoip-failed", "step:geoip-replaced", "geoip-used-by-registration")
 	x := c19NewCtx(t)
 	if p := vh.ReplayFile(); p != "" {
 		var c c19ReloadCase
@@ -726,6 +858,10 @@ func TestVerif_C19_reload2(t *testing.T) {
 		{Conf: c19Conf{Note: "empty file"}},
 		{ConfFault: "missing"},
 		{ConfFault: "dir"},
+		// valid policies, GeoIP database that cannot be opened: missing file / a directory / a truncated file
+		{Conf: mk([]string{"172.16.0.0/12"}, nil, []string{"203.0.113.64/26"}, nil, c19KV{Key: "geoip_cc_db_path", Mode: "badvalue", Raw: c19Q("/nonexistent-c19/GeoLite2.mmdb")})},
+		{Conf: mk([]string{"172.16.0.0/12"}, nil, nil, []string{"localhost"}, c19KV{Key: "geoip_cc_db_path", Mode: "zero", Raw: `""`}, c19KV{Key: "geoip_asn_db_path", Mode: "badvalue", Raw: c19Q(c19GeoDirPath())})},
+		{Conf: mk(nil, nil, []string{"192.0.2.0/25"}, nil, c19KV{Key: "geoip_cc_db_path", Mode: "badvalue", Raw: c19Q(c19GeoTruncatedPath())}, c19KV{Key: "geoip_asn_db_path", Mode: "badvalue", Raw: c19Q(c19GeoTruncatedPath())})},
 	}
 	subs := []c19Step{{SubV: 1}, {SubV: 2}, {SubFault: "syntax"}, {SubFault: "genkey"}, {SubFault: "missing"}, {SubFault: "dir"}}
 	var alpha []c19Step
